@@ -359,10 +359,12 @@ impl Iterator for Cmap12Iter<'_> {
                 let mut next_group = self.subtable.group(self.cur_group_ix, &self.limits)?;
                 // Groups should be in order and non-overlapping so make sure
                 // that the start code of next group is at least
-                // current_end.
-                if next_group.range.start < group.range.end {
-                    next_group.range = group.range.end..next_group.range.end;
-                }
+                // current_end. As in `Cmap4Iter`, also keep the end from
+                // sliding backwards, otherwise overlapping groups are
+                // iterated again and again.
+                let cur_end = group.range.end;
+                next_group.range =
+                    next_group.range.start.max(cur_end)..next_group.range.end.max(cur_end);
                 self.cur_group = Some(next_group);
             }
         }
